@@ -45,6 +45,7 @@ RULE = (
     'and after the call, whether it returns or raises. Non-trivial: input has sharing, a tag '
     'and a value long enough to trigger trimming.'
 )
+RULE += (' ' + 'Also generated: for build, a callable that mutates its list/dict argument in place, given a Buildable-free container (directly or nested in a list).')
 ASSUMPTIONS = [
     'history is excluded from the compared state (as in the property statement)',
     'an API that raises on an input is not a C17 violation; only a changed input is',
